@@ -262,18 +262,31 @@ def ccf_setup(ctx):
 
     compute = Fn(fn, "compute_fn") if fate != "not-callable" else None
     self = Rec("ActionLink", attrs={"compute_fn": compute, "option_strings": ["--a --> b"]})
-    return Setup(env={"self": self, "args": tuple(args)}, calls={"callable": lambda c, a, k: isinstance(a[0], Fn)}, data=dict(fate=fate, args=args, out=out))
+    # a result remembered from an earlier call (whatever made it) must not be served: the target is the function of the *current* source values
+    if ctx.choose(2, "something-remembered-on-the-action-from-an-earlier-call") == 1:
+        for name in ("_last_call", "_cache", "_last_result", "_memo"):
+            self.attrs[name] = (list(args), Rec("stale value"))
+    snap = dict(self.attrs)
+    return Setup(env={"self": self, "args": tuple(args)}, calls={"callable": lambda c, a, k: isinstance(a[0], Fn)}, data=dict(fate=fate, args=args, out=out, self_=self, snap=snap))
 
 
 def ccf_post(ctx, st, result):
     d = st.data
     ev = [e for e in ctx.events if e[0] == "compute"]
+    ccf_frame(ctx, d)
     ctx.oblige("post", f"the-value-is-compute_fn-applied-to-the-source-values,in-order,once[{d['fate']},{len(d['args'])} sources]",
                d["fate"] == "returns" and result is d["out"] and len(ev) == 1 and len(ev[0][1]) == len(d["args"]) and all(x is y for x, y in zip(ev[0][1], d["args"])) and ev[0][2] == {})
 
 
+def ccf_frame(ctx, d):
+    a = d["self_"].attrs
+    ctx.oblige("frame", f"nothing-of-the-call-is-remembered-on-the-link(the source values are the caller's mutable objects: a remembered argument list would change with them)[{d['fate']},{len(d['args'])} sources]",
+               set(a) == set(d["snap"]) and all(a[k] is d["snap"][k] for k in a))
+
+
 def ccf_raises(ctx, st, exc):
     d = st.data
+    ccf_frame(ctx, d)
     ctx.oblige("raises", f"any-failure-of-compute_fn-is-reported-as-ValueError(never a value from nowhere)[{d['fate']}](got {exc.cls})", exc.cls == "ValueError" and d["fate"] != "returns")
 
 
